@@ -17,15 +17,18 @@ def run(out, tier, seed):
     cases = []
     for t in r.tagged("HIST"):
         meth = rng.choice(["meth", "meth", "other", "deco"])
-        path = rng.choice(["direct", "direct", "dotted", "selfcap", "selfalias"])
-        cases.append({"id": len(cases), "src": "tlc-exhaustive", "target": t[1], "calls": list(t[2]), "method": meth, "path": path})
+        path = rng.choice(["direct", "direct", "dotted", "selfcap", "selfalias", "nested", "nested_ctx"])
+        cases.append({"id": len(cases), "src": "tlc-exhaustive", "target": t[1], "calls": list(t[2]), "method": meth, "path": path,
+                      "via": [rng.random() < 0.8 for _ in t[2]]})
     for s, w in sigs.items():
         cases.append({"id": len(cases), "src": "witness:" + s, "target": w[0], "calls": list(w[1]), "method": "meth", "path": "direct"})
     objs = ["k1", "k2", "s1", "e1", "e2", "e3", "u1", "u2"]
     for _ in range(200 if tier == "quick" else 3000):
-        cases.append({"id": len(cases), "src": "random", "target": rng.choice(objs + ["K", "Sub", "E", "U"]),
-                      "calls": [rng.choice(objs) for _ in range(rng.randint(1, 5))],
-                      "method": rng.choice(["meth", "other", "deco"]), "path": rng.choice(["direct", "dotted", "selfcap", "selfalias"])})
+        calls = [rng.choice(objs) for _ in range(rng.randint(1, 5))]
+        cases.append({"id": len(cases), "src": "random", "target": rng.choice(objs + ["K", "Sub", "E", "U"]), "calls": calls,
+                      "method": rng.choice(["meth", "other", "deco"]),
+                      "path": rng.choice(["direct", "dotted", "selfcap", "selfalias", "nested", "nested_ctx"]),
+                      "via": [rng.random() < 0.8 for _ in calls]})
     for cls in ["K", "Sub", "E", "U"]:
         cases.append({"id": len(cases), "src": "property", "target": cls, "calls": objs, "method": "prop", "path": "direct"})
     cin, cout = os.path.join(work, "rc.json"), os.path.join(work, "rt.json")
@@ -47,8 +50,8 @@ def run(out, tier, seed):
     out.extra.update({"cases": len(res), "model_signatures": sorted(sigs),
                       "rule": "population of 8 instances (plain, subclass, value-equal hashable, value-equal unhashable) x every "
                               "probed object or class x every call sequence up to the bound (TLC), through direct access, a "
-                              "functools.wraps decorator, a property, a dotted attribute path and a receiver parameter not named "
-                              "self; plus random longer sequences; events, reported receiver, return values and the same-named "
+                              "functools.wraps decorator, a property, a dotted attribute path, a receiver parameter not named "
+                              "self, and as the inner step of a call path (poll > obj.meth > v, calls made under poll or directly); plus random longer sequences; events, reported receiver, return values and the same-named "
                               "plain function judged by TraceRecv"})
     out.samples.append({k: res[0][k] for k in ("text", "calls", "events", "outcome")})
 
